@@ -278,6 +278,64 @@ func vfC06LastWords(t *testing.T, res *vfResult, idx int) {
 	synctest.Wait()
 }
 
+// vfC06ReplayAcrossExport: the receiving side's state is exported and resumed (DTLS 1.2) between the delivery of a
+// record and its replay. One session, one payload written once: the resumed connection must not deliver it again,
+// and must keep delivering new records.
+func vfC06ReplayAcrossExport(t *testing.T, res *vfResult, idx int) {
+	res.Eval(1)
+	suites := vfC19Suites()
+	c := vfC19Case{Suite: suites[idx%len(suites)], CID: []int{-1, 4}[(idx/len(suites))%2], Side: []string{"c", "s"}[idx%2], Idx: idx}
+	w, err := vfC19Setup(c)
+	if err != nil {
+		res.Count("replay_across_export_setup_failed", 1)
+
+		return
+	}
+	defer w.close()
+	x, y := w.c, w.s
+	if c.Side == "s" {
+		x, y = w.s, w.c
+	}
+	id := fmt.Sprintf("replay-across-export/%s/cid%d/%s", c.Suite, c.CID, c.Side)
+	res.NonTrivial(fmt.Sprintf("%s/%d", id, idx))
+	var delivered []*vfWire
+	for k := 0; k < 3; k++ {
+		mark := w.n.LogLen()
+		if msg, _ := w.send(y, "before-export"); msg != "" {
+			res.Count("replay_across_export_setup_failed", 1)
+
+			return
+		}
+		for _, e := range w.n.LogSince(mark) {
+			if !e.Deliver && e.From == y.name {
+				delivered = append(delivered, e)
+			}
+		}
+	}
+	if _, _, stage, err := w.export(x, nil); err != nil {
+		res.Count("replay_across_export_export_failed", 1)
+		res.Seen("replay_across_export_failures", stage+": "+vfErrNorm(err))
+
+		return
+	}
+	before := len(x.snapshot())
+	for _, e := range delivered {
+		w.n.Deliver(string(x.ep.addr), e.Data, y.ep.addr)
+	}
+	synctest.Wait()
+	time.Sleep(50 * time.Millisecond)
+	synctest.Wait()
+	res.Count("replays_across_export_injected", int64(len(delivered)))
+	if extra := len(x.snapshot()) - before; extra > 0 {
+		res.Violate("C06:delivered-twice:replayed-after-export-and-resume",
+			fmt.Sprintf("%s: %d records the original connection had already delivered were replayed to the connection resumed from its exported state: %d payloads were delivered again (e.g. %q)",
+				id, len(delivered), extra, x.snapshot()[before]), map[string]any{"replay_across_export": idx})
+	}
+	if msg, _ := w.send(y, "after-export"); msg != "" {
+		res.Violate("C06:in-window-record-dropped:after-export-and-resume", fmt.Sprintf("%s: a new record sent after the resume: %s", id, msg), map[string]any{"replay_across_export": idx})
+	}
+}
+
 func TestVF_C06(t *testing.T) {
 	vfGetPKI()
 	res := vfNewResult("C06", "arrival scripts over captured application records: exhaustive for all scripts of length <= n+2 over n <= 3 (quick) / 4 "+
@@ -427,6 +485,7 @@ func TestVF_C06(t *testing.T) {
 	vfCaseName = func(i int) string { return cases[i].ID() }
 	vfBubbles(t, len(cases), func(t *testing.T, i int) { vfC06Run(t, res, cases[i]) })
 	vfBubbles(t, vfPick(6, 40)*len(vfC06Cfgs()), func(t *testing.T, i int) { vfC06LastWords(t, res, i) })
+	vfBubbles(t, vfPick(24, 200), func(t *testing.T, i int) { vfC06ReplayAcrossExport(t, res, i) })
 	vfCaseName = nil
 	res.Floor("duplicate_arrivals_rejected", 100)
 	res.Floor("reordered_accepted", 100)
